@@ -360,12 +360,12 @@ def observable(maxops):
                     a.unwatch(obs[o])
                     model.remove(o)
                 else:
+                    # removing an observer that is not registered: raising ValueError (as the audited code does) and
+                    # doing nothing are both fine - the property speaks of who gets called
                     try:
                         a.unwatch(obs[o])
-                        ok = False
                     except ValueError:
-                        ok = True
-                    sx.check(ok, "obs.unwatch-unknown-raises")
+                        pass
             elif op == 4:
                 a.unwatch_all()
                 model = []
@@ -388,7 +388,46 @@ def observable(maxops):
     return scenario
 
 
+def reentrant_unwatch(sx):
+    """an observer removes another observer (unwatch or unwatch_all) from inside its own callback: from that moment the
+    removed one is not called - not later in the same notification, not at the next update"""
+    from geckolib.driver import GeckoByteStructAccessor, GeckoStructure
+    st = GeckoStructure(None)
+    st.set_status_block(sx.bytes_("old", 1) + b"\x00" * 1023)
+    a = GeckoByteStructAccessor(st, "A", 0, None)
+    st.accessors = {"A": a}
+    calls = []
+    use_all = bool(sx.choice("remover_uses_unwatch_all", 2))
+
+    class Victim:
+        def cb(self, *x):
+            calls.append("victim")
+    victim = Victim()
+
+    class Remover:
+        def cb(self, *x):
+            calls.append("remover")
+            if use_all:
+                a.unwatch_all()
+            elif victim.cb in a._observers:
+                a.unwatch(victim.cb)
+    remover = Remover()
+    first = sx.choice("remover_registered_first", 2)
+    for o in ([remover, victim] if first else [victim, remover]):
+        a.watch(o.cb)
+    nb = (st.status_block[0] + 1) % 256
+    from sx.core import Vec
+    st.replace_status_block_segment(0, bytes([nb]) if isinstance(nb, int) else Vec([nb]))
+    sx.check(calls == (["remover"] if first else ["victim", "remover"]), "obs.removed-inside-a-callback-is-not-called-afterwards",
+             lambda: str(calls))
+    del calls[:]
+    nb2 = (st.status_block[0] + 1) % 256
+    st.replace_status_block_segment(0, bytes([nb2]) if isinstance(nb2, int) else Vec([nb2]))
+    sx.check("victim" not in calls, "obs.removed-observer-never-called-again", lambda: str(calls))
+
+
 def units(tier):
+    yield Unit("reentrant-unwatch", reentrant_unwatch)
     for sh, (k, name, sig) in sorted(shapes(tier).items(), key=lambda kv: kv[1][1]):
         for async_ in (False, True):
             if async_ and k > (4 if tier == "quick" else 16):
